@@ -10,7 +10,7 @@ from harness.core import Machinery
 
 LEVEL = "model_checking"
 NAN, PINF, NINF = 99999, 88888, -88888
-COVS = [(50, 90), (40, 95), (80, 99)]
+COVS = [(50, 90), (40, 95), (45.5, 99.9)]       # the third pair has percentile levels with two decimals (27.25, 0.05)
 
 
 def tokf(v):
@@ -203,11 +203,11 @@ def code_to_spec(ctx, sutils, boxplot, ncases):
             col[m < 0.1] = np.nan
             col[(m >= 0.1) & (m < 0.15)] = np.inf
             col[(m >= 0.15) & (m < 0.2)] = -np.inf
-            bcov = int(rng.choice([40, 50, 60, 75, 90]))
-            wcov = int(rng.choice([w for w in (80, 91, 95, 99) if w > bcov]))
+            bcov = float(rng.choice([40, 50, 60.5, 75, 90, 45.3]))
+            wcov = float(rng.choice([w for w in (80, 91.1, 95, 99, 99.9) if w > bcov]))
             cnt, vals = box_values(boxplot.boxplot_stats(col, bcov, wcov), bcov, wcov)
             recs.append({"kind": "box", "col": [NAN if np.isnan(v) else PINF if v == np.inf else NINF if v == -np.inf else int(v) for v in col],
-                         "bcov": bcov, "wcov": wcov, "count": cnt, "stats": [to_rat(v, dmax=400) for v in vals]})
+                         "bcov": int(round(bcov * 10)), "wcov": int(round(wcov * 10)), "count": cnt, "stats": [to_rat(v, dmax=4000) for v in vals]})
         ctx.count(recs[-1], True)
     # the standard-normal ranks must be the data ranks
     for r in recs:
